@@ -287,11 +287,35 @@ fn emit_fn(
         *fired.entry("R-hoist".into()).or_insert(0) += 1;
     }
 
+    // snippet anchors are matched against the repository's own text (before any rewrite rule)
+    {
+        let empty0 = ItemContract::default();
+        let c0 = contract.unwrap_or(&empty0);
+        for (i, (anchor, _)) in c0.inserts.iter().enumerate() {
+            if let Anchor::After(sn) | Anchor::Before(sn) = anchor {
+                let mut si = rules::SnippetInserter {
+                    snippet: rules::norm(sn),
+                    after: matches!(anchor, Anchor::After(_)),
+                    marker: i,
+                    hits: 0,
+                    done: false,
+                };
+                si.visit_block_mut(&mut block);
+                if si.hits != 1 {
+                    die(&format!(
+                        "{}: @insert anchor `{}` matched {} statements (lost anchor)",
+                        selector, sn, si.hits
+                    ));
+                }
+            }
+        }
+    }
     {
         let mut rw = rules::Rewriter { cfg, fired, tmp: 0, self_err };
         rw.visit_signature_mut(&mut sig);
         rw.visit_block_mut(&mut block);
     }
+    rules::mut_self(&mut sig, &mut block, fired);
     let mut markers = Markers::default();
     // loops
     let mut ln = rules::LoopNumberer { next: 0 };
@@ -342,22 +366,7 @@ fn emit_fn(
                     die(&format!("{}: @insert loop {}: no such loop (lost anchor)", selector, k));
                 }
             }
-            Anchor::After(s) | Anchor::Before(s) => {
-                let mut si = rules::SnippetInserter {
-                    snippet: rules::norm(s),
-                    after: matches!(anchor, Anchor::After(_)),
-                    marker: i,
-                    hits: 0,
-                    done: false,
-                };
-                si.visit_block_mut(&mut block);
-                if si.hits != 1 {
-                    die(&format!(
-                        "{}: @insert anchor `{}` matched {} statements (lost anchor)",
-                        selector, s, si.hits
-                    ));
-                }
-            }
+            Anchor::After(_) | Anchor::Before(_) => {}
         }
     }
 
@@ -453,7 +462,29 @@ pub fn emit_group(
             match item {
                 Item::Fn(f) => {
                     if cfg.fromfn.contains(&f.sig.ident.to_string()) {
-                        die("R-fromfn not implemented for this item");
+                        let ff = rules::from_fn(&f, cfg, fired);
+                        pr.item = Some(selector.clone());
+                        pr.src_file = Some(rel.to_string());
+                        pr.stream(ff.struct_item.to_token_stream(), &Markers::default(), false);
+                        pr.newline();
+                        pr.item = None;
+                        let c = lookup(&selector, used);
+                        let vis: syn::Visibility = syn::parse_quote!(pub);
+                        emit_fn(&selector, &f.attrs, &vis, &ff.init_sig, &ff.init_block, None, rel, cfg, c, pr, fired, false, canaries);
+                        let nsel = format!("{}::next", selector);
+                        let nc = lookup(&nsel, used);
+                        let g = &ff.impl_generics;
+                        let st = &ff.self_ty;
+                        pr.src_file = Some(rel.to_string());
+                        pr.stream(quote!(impl #g #st), &Markers::default(), false);
+                        pr.word("{", false);
+                        pr.newline();
+                        emit_fn(&nsel, &[], &vis, &ff.next_sig, &ff.next_block, None, rel, cfg, nc, pr, fired, false, canaries);
+                        if canaries && !nc.map(|c| c.nocanary).unwrap_or(false) {
+                            emit_fn(&nsel, &[], &vis, &ff.next_sig, &ff.next_block, None, rel, cfg, nc, pr, fired, true, false);
+                        }
+                        pr.raw_line("}", "code");
+                        return;
                     }
                     let c = lookup(&selector, used);
                     emit_fn(&selector, &f.attrs, &f.vis, &f.sig, &f.block, None, rel, cfg, c, pr, fired, false, canaries);
@@ -620,4 +651,62 @@ pub fn emit_group(
             pr.raw_line("}", "code");
         }
     }
+}
+
+
+/// `macro_rules! name { (pattern) => { BODY } }` : substitute `$x` by args[x] in BODY and parse it as a file.
+/// Token spans are kept, so extracted lines still map to the macro body in the repository file.
+pub fn instantiate_macro(file: &syn::File, name: &str, args: &Value, rel: &str) -> syn::File {
+    use proc_macro2::{TokenStream, TokenTree, Delimiter, Group};
+    for it in file.items.iter() {
+        if let Item::Macro(m) = it {
+            if m.ident.as_ref().map(|i| i == name).unwrap_or(false) {
+                // tokens: (pattern) => { body } ;?
+                let toks: Vec<TokenTree> = m.mac.tokens.clone().into_iter().collect();
+                let mut body: Option<TokenStream> = None;
+                for (i, t) in toks.iter().enumerate() {
+                    if let TokenTree::Group(g) = t {
+                        if g.delimiter() == Delimiter::Brace && i >= 3 {
+                            body = Some(g.stream());
+                            break;
+                        }
+                    }
+                }
+                let body = body.unwrap_or_else(|| die(&format!("{}: macro `{}` has no body", rel, name)));
+                fn subst(ts: TokenStream, args: &Value) -> TokenStream {
+                    let v: Vec<TokenTree> = ts.into_iter().collect();
+                    let mut out: Vec<TokenTree> = Vec::new();
+                    let mut i = 0;
+                    while i < v.len() {
+                        match &v[i] {
+                            TokenTree::Punct(p) if p.as_char() == '$' && i + 1 < v.len() => {
+                                if let TokenTree::Ident(id) = &v[i + 1] {
+                                    if let Some(rep) = args[id.to_string()].as_str() {
+                                        let mut nid = proc_macro2::Ident::new(rep, id.span());
+                                        nid.set_span(id.span());
+                                        out.push(TokenTree::Ident(nid));
+                                        i += 2;
+                                        continue;
+                                    }
+                                }
+                                out.push(v[i].clone());
+                            }
+                            TokenTree::Group(g) => {
+                                let mut ng = Group::new(g.delimiter(), subst(g.stream(), args));
+                                ng.set_span(g.span());
+                                out.push(TokenTree::Group(ng));
+                            }
+                            t => out.push(t.clone()),
+                        }
+                        i += 1;
+                    }
+                    out.into_iter().collect()
+                }
+                let inst = subst(body, args);
+                return syn::parse2::<syn::File>(inst)
+                    .unwrap_or_else(|e| die(&format!("{}: macro `{}` body does not parse as items: {}", rel, name, e)));
+            }
+        }
+    }
+    die(&format!("{}: macro_rules! {} not found (lost anchor)", rel, name))
 }
